@@ -253,7 +253,7 @@ fn rule_value() -> impl Strategy<Value = UStr> {
 }
 
 fn u2player() -> impl Strategy<Value = U2Player> {
-    (any::<u32>(), ustr(30), prop_oneof![2 => Just(0u32), 5 => 1u32..500, 1 => any::<u32>()], prop_oneof![any::<i32>(), -10i32..200], any::<u32>()).prop_map(
+    (crate::util::num::<u32>(), ustr(30), prop_oneof![2 => Just(0u32), 5 => 1u32..500, 1 => crate::util::num::<u32>()], prop_oneof![crate::util::num::<i32>(), -10i32..200], crate::util::num::<u32>()).prop_map(
         |(id, name, ping, score, stats_id)| {
             U2Player {
                 id,
@@ -268,11 +268,11 @@ fn u2player() -> impl Strategy<Value = U2Player> {
 
 pub fn u2_state() -> impl Strategy<Value = U2State> {
     (
-        (any::<[u8; 4]>(), any::<u32>(), ustr(20), any::<u32>(), any::<u32>()),
-        (ustr(126), ustr(60), ustr(40), any::<u32>()),
+        (any::<[u8; 4]>(), crate::util::num::<u32>(), ustr(20), crate::util::num::<u32>(), crate::util::num::<u32>()),
+        (ustr(126), ustr(60), ustr(40), crate::util::num::<u32>()),
         prop::collection::vec((rule_key(), rule_value()), 0..24),
         prop_oneof![3 => prop::collection::vec(u2player(), 0..4), 2 => prop::collection::vec(u2player(), 4..20), 1 => prop::collection::vec(u2player(), 20..65)],
-        (1usize..7, 1usize..7, 0u32..3, any::<u32>()),
+        (1usize..7, 1usize..7, 0u32..3, crate::util::num::<u32>()),
     )
         .prop_map(|((header, server_id, ip, game_port, query_port), (name, map, game_type, max_players), rules, players, (rd, pd, np_mode, np_big))| {
             // the protocol has no sequence numbers: two byte-identical datagrams of one list cannot be told from one
